@@ -198,8 +198,13 @@ BuildAmbM(rs) == {i \in 1..Len(rs) : \E j \in 1..Len(rs) : i # j /\ AmbM(rs[i], 
 Matching(rs, u) == {i \in 1..Len(rs) : Match(rs[i], u)}
 FirstMatch(rs, u) == IF Matching(rs, u) = {} THEN 0
                      ELSE CHOOSE i \in Matching(rs, u) : \A j \in Matching(rs, u) : i <= j
-TableUris(rs) == {Canon(rs[i], "v") : i \in {k \in 1..Len(rs) : N(rs[k]) >= 1}}
-                 \cup {Witness(rs[ij[1]], rs[ij[2]]) : ij \in {x \in Pairs(rs) : OverlapS(rs[x[1]], rs[x[2]])}}
+\* URIs a table is probed with: every route's own canonical URI, with and without its scheme, and for
+\* every overlapping pair the witness without a scheme (which any pattern scheme accepts - this is what
+\* makes 's:/a' and 't:/a' overlap) and under each of the two patterns' schemes.
+TableUris(rs) == UNION {{[Canon(rs[i], "v") EXCEPT !.sc = s] : s \in {"", rs[i].sc}} :
+                                i \in {k \in 1..Len(rs) : N(rs[k]) >= 1}}
+                 \cup UNION {{[Witness(rs[ij[1]], rs[ij[2]]) EXCEPT !.sc = s] : s \in {"", rs[ij[1]].sc, rs[ij[2]].sc}} :
+                                ij \in {x \in Pairs(rs) : OverlapS(rs[x[1]], rs[x[2]])}}
 
 Init == routes = <<>> /\ built = "no" /\ lastAct = [k |-> "init"]
 
